@@ -1,0 +1,11 @@
+//go:build !verif
+// +build !verif
+
+package anndb
+
+import (
+	"google.golang.org/grpc"
+)
+
+// Hook for the verification harness (build tag `verif`); a no-op without it.
+func verifGrpcServerOptions(server *Server) []grpc.ServerOption { return nil }
